@@ -2,6 +2,7 @@
 import z3
 
 from fjvc.core import family
+from fjvc.interp import Untranslatable
 from fjvc.interp import Obj, Closure
 from fjvc.values import SV, SymSeq, lift, to_real, R, I
 
@@ -206,6 +207,18 @@ def contrastive(ctx):
     lib["equinox.combine"] = lambda p, s: qd
     it.global_overrides[MOD] = {"unwrap": lambda d: d, "_get_contrastive_idxs": lambda k, b, n_: ("idxs", k, b, n_)}
     lib["jax.numpy.append"] = lambda v, s: Appended(v, s)
+    # equivalent spellings of "the contrastive logits together with the positive one" (a family plus one extra member)
+    lib["jax.numpy.ravel"] = lambda v: v
+    lib["jax.numpy.atleast_1d"] = lambda v: v
+
+    def concat(parts, axis=0):
+        parts = list(parts)
+        if len(parts) == 2:
+            return Appended(parts[0], parts[1])
+        raise Untranslatable("concatenate of other than (family, extra member)")
+
+    lib["jax.numpy.concatenate"] = concat
+    lib["jax.numpy.hstack"] = concat
     lib["jax.scipy.special.logsumexp"] = lambda a: SV(LSE(to_real(lift(a.member)), to_real(lift(a.extra))))
     seen = {}
 
